@@ -178,7 +178,7 @@ theorem pbkdfNew_winInv {s : St} (x : Nat) (r : Req) (v : Option VClass) (h : Wi
     WinInv (pbkdfNew s x r v).1.window := by
   unfold pbkdfNew
   split
-  · exact winInv_record
+  · exact h
   · rename_i s1 h1
     have hc := (reserve_core h1).2.1
     have h1w : WinInv s1.window := by rw [hc]; exact h
@@ -818,7 +818,7 @@ theorem pbkdfNew_winKeep (s : St) (x : Nat) (r : Req) (v : Option VClass) :
     WinKeep s.window (pbkdfNew s x r v).1.window := by
   unfold pbkdfNew
   split
-  · exact winKeep_record (winKeep_refl _)
+  · exact winKeep_refl _
   · rename_i s1 h1
     have hc := (reserve_core h1).2.1
     have h1w : WinKeep s.window s1.window := by rw [hc]; exact winKeep_refl _
@@ -1332,7 +1332,7 @@ theorem pbkdfNew_tableInv {s : St} (x : Nat) (r : Req) (v : Option VClass) (h : 
   have hnr : ¬ resv s.table x := fun hr => hx ((h.reserved_iff x).mp hr)
   unfold pbkdfNew
   split
-  · exact ⟨by simpa using h.reserved_iff, by simp, by simpa using h.cap⟩
+  · exact h
   · rename_i s1 h1
     obtain ⟨_, _, hct, _, hcm, _⟩ := reserve_core h1
     obtain ⟨hr, hl⟩ := reserve_table h1
@@ -1580,29 +1580,28 @@ theorem transport_busy_is_noop (s : St) (x : Nat) (r : Req) (v : Option VClass)
   simp [core]
 
 /-- **The reservation fails** (the unsecured session got the last slot and no session can be
-evicted): the responder returns with an error before it has looked at the message. What the code
-does: nothing is answered, no task and no reserved slot remain, the marker is cleared - *whoever
-held it* - and the failure is charged to the window like a failed proof (revoking it at the threshold). -/
+evicted): `reserve_session_or_busy` answers `Busy` and the responder returns `Ok(true)` before it
+has looked at the message. No task and no reserved slot remain, and — a reservation failure is no
+proof — **nothing is charged**: the window with its failure counter and the marker of whichever
+handshake holds it are exactly as before (repo fix `bcb59b0`; before it the failure was charged
+like a failed proof and cleared the marker, so that such requests alone could revoke the window). -/
 theorem reservation_failure (s s1 : St) (x : Nat) (r : Req) (v : Option VClass)
     (hx : findTask s x = none) (hslot : addSlot s (.unsec x) = some s1) (hres : reserve s1 x v = none) :
-    step s (.pbkdf x r v) = (recordFailure s1, .none) ∧
-    (step s (.pbkdf x r v)).1.marker = none ∧
+    step s (.pbkdf x r v) = (s1, .statusBusy) ∧
+    (step s (.pbkdf x r v)).1.marker = s.marker ∧
     (step s (.pbkdf x r v)).1.tasks = s.tasks ∧
     (step s (.pbkdf x r v)).1.sessions = s.sessions ∧
     (step s (.pbkdf x r v)).1.table = s.table ++ [.unsec x] ∧
-    (step s (.pbkdf x r v)).1.window =
-      match s.window with
-      | some w => if w.failures + 1 ≥ maxFailures then none else some { w with failures := w.failures + 1 }
-      | none => none := by
-  have hstep : step s (.pbkdf x r v) = (recordFailure s1, .none) := by
+    (step s (.pbkdf x r v)).1.window = s.window := by
+  have hstep : step s (.pbkdf x r v) = (s1, .statusBusy) := by
     simp only [step, hx, hslot, pbkdfNew, hres]
-  obtain ⟨hs, hw, ht, _, _, _⟩ := addSlot_core hslot
+  obtain ⟨hs, hw, ht, _, hm, _⟩ := addSlot_core hslot
   refine ⟨hstep, ?_, ?_, ?_, ?_, ?_⟩
-  · rw [hstep]; simp
-  · rw [hstep]; simp [ht]
-  · rw [hstep]; simp [hs]
-  · rw [hstep]; simp [(addSlot_table hslot).1]
-  · rw [hstep, recordFailure_window, hw]
+  · rw [hstep]; exact hm
+  · rw [hstep]; exact ht
+  · rw [hstep]; exact hs
+  · rw [hstep]; exact (addSlot_table hslot).1
+  · rw [hstep]; exact hw
 
 theorem evictPick_mem {s : St} {cur : Option Nat} {v : Option VClass} {sl : Slot}
     (h : evictPick s cur v = some sl) : sl ∈ s.table := by
@@ -1735,7 +1734,7 @@ theorem pbkdfNew_holder {s : St} (x : Nat) (r : Req) (v : Option VClass) (h : Ho
     (hx : ¬ tk s.tasks x) : HolderInv (pbkdfNew s x r v).1 := by
   unfold pbkdfNew
   split
-  · exact holder_none (by simp)
+  · exact h
   · rename_i s1 h1
     obtain ⟨_, _, hct, hcn, hcm, _⟩ := reserve_core h1
     simp only
@@ -1939,19 +1938,22 @@ example : hasUnsec (deliver (run {} [.openWin 7 180]) 0 (.pbkdf 1 .good none)).1
 
 /-- `transport_busy_is_noop`: a full table of sessions with active exchanges -/
 example : (step (run {} [.openWin 7 180, .fill 16 true]) (.pbkdf 1 .good none)).2 = .transportBusy := by decide
-/-- `reservation_failure`: one free slot - silence, one failure charged, no task, no marker, no reserved slot -/
-example : (step (run {} [.openWin 7 180, .fill 15 true]) (.pbkdf 1 .good none)).2 = .none ∧
-    ((step (run {} [.openWin 7 180, .fill 15 true]) (.pbkdf 1 .good none)).1.window.map (·.failures)) = some 1 ∧
+/-- `reservation_failure`: one free slot - `Busy`, nothing charged, no task, no marker, no reserved slot -/
+example : (step (run {} [.openWin 7 180, .fill 15 true]) (.pbkdf 1 .good none)).2 = .statusBusy ∧
+    ((step (run {} [.openWin 7 180, .fill 15 true]) (.pbkdf 1 .good none)).1.window.map (·.failures)) = some 0 ∧
     (step (run {} [.openWin 7 180, .fill 15 true]) (.pbkdf 1 .good none)).1.tasks = [] ∧
     (step (run {} [.openWin 7 180, .fill 15 true]) (.pbkdf 1 .good none)).1.marker = none ∧
     (step (run {} [.openWin 7 180, .fill 15 true]) (.pbkdf 1 .good none)).1.table.contains (.reserved 1) = false := by decide
 /-- … and with one evictable session the handshake proceeds -/
 example : (step (run {} [.openWin 7 180, .fill 14 true, .fill 1 false]) (.pbkdf 1 .good (some .filler))).2 = .pbkdfResp 1 := by
   decide
-/-- what the code does to a handshake in progress when a second initiator's reservation fails: the
-first one loses the marker and is told `SessionNotFound` at its next message -/
+/-- a handshake in progress is not disturbed when a second initiator's reservation fails: it keeps
+the marker and its next message is answered (before `bcb59b0` it was told `SessionNotFound`); such
+requests leave the failure counter alone (`reservation_failure`: the window is unchanged, each time) -/
 example : (step (run {} [.openWin 7 180, .pbkdf 1 .good none, .fill 13 true, .pbkdf 2 .good none]) (.pake1 1 (.valid 5))).2 =
-    .statusSessionNotFound := by decide
+    .pake2 2 := by decide
+example : ((run {} [.openWin 7 180, .fill 15 true, .pbkdf 1 .good (some .unsec), .pbkdf 2 .good (some .unsec),
+    .pbkdf 3 .good (some .unsec)]).window.map (·.failures)) = some 0 := by decide
 
 /-- `rxTimeout_not_before` / `rxTimeout_charges`: 38451 ms of silence are survived, 38452 ms are not -/
 example : (run {} [.openWin 7 180, .pbkdf 1 .good none, .tick 38451, .rxTimeout 1]).tasks.length = 1 := by decide
